@@ -92,6 +92,7 @@ def worker_main(prop_id, tier, wid, nworkers, verif_seed, budget, max_cases,
         'last_index': None,
         'harness_errors': [],
         'extra': collections.Counter(),
+        'table': collections.Counter(),
     }
     keys = set()
     ntkeys = set()
@@ -137,6 +138,9 @@ def worker_main(prop_id, tier, wid, nworkers, verif_seed, budget, max_cases,
                 rep['extra'][f'{kx}={vx}'] += 1
         if v.aborted:
             rep['aborted'][v.aborted] += 1
+        tb = getattr(v, 'table', None)
+        if tb:
+            rep['table'].update(tb)
         if v.key is not None:
             keys.add(v.key)
             multi = getattr(v, 'ntkeys', None)
@@ -162,7 +166,7 @@ def worker_main(prop_id, tier, wid, nworkers, verif_seed, budget, max_cases,
     rep['keys'] = sorted(keys)
     rep['nontrivial_keys'] = sorted(ntkeys)
     rep['wall'] = time.time() - t0
-    for c in ('probes', 'faults', 'aborted', 'viol_counts', 'extra'):
+    for c in ('probes', 'faults', 'aborted', 'viol_counts', 'extra', 'table'):
         rep[c] = dict(rep[c])
     tmp = outpath + '.tmp'
     with open(tmp, 'w') as f:
@@ -278,6 +282,7 @@ def _finish(prop, prop_id, tier, verif_seed, reports, errors, t0, nworkers,
     aborted = collections.Counter()
     viol_counts = collections.Counter()
     extra = collections.Counter()
+    table = collections.Counter()
     keys = set()
     ntkeys = set()
     samples = []
@@ -292,6 +297,7 @@ def _finish(prop, prop_id, tier, verif_seed, reports, errors, t0, nworkers,
         aborted.update(r['aborted'])
         viol_counts.update(r['viol_counts'])
         extra.update(r['extra'])
+        table.update(r.get('table', {}))
         keys.update(r['keys'])
         ntkeys.update(r['nontrivial_keys'])
         samples.extend(r['samples'])
@@ -393,6 +399,8 @@ def _finish(prop, prop_id, tier, verif_seed, reports, errors, t0, nworkers,
             'probe_counts': dict(sorted(probes.items())),
             'aborted_runs': dict(sorted(aborted.items())),
             'extra': dict(sorted(extra.items())),
+            'coverage_table_classes': len(table),
+            'coverage_table': dict(sorted(table.items())[:400]),
             'real_components': prop.real_components,
             'stub_components': prop.stub_components,
             'attribution_missing_probes': extra.get('missing_probes', 0),
